@@ -144,6 +144,7 @@ func stressShard(c *run.Ctx, prop string, race bool) *run.ShardResult {
 		sr.Counters["snapshots"] += res.Snapshots
 		sr.Counters["snapshots_overlapping_executebatch"] += res.SnapsOverlap
 		sr.Counters["gets"] += res.Gets
+		sr.Counters["store.previous_walk_steps"] += res.PrevWalks
 		sr.Counters["api_calls"] += res.Calls
 		sr.Counters["distinct_prefix_vectors"] += int64(len(res.PrefixVectors))
 		sr.Counters["writers_blocked"] += int64(res.WritersBlocked)
